@@ -113,6 +113,7 @@ func (w *World) VerifyFunction(fn *ssa.Function, opts VerifyOpts) (res *FuncResu
 		pv := Var("pargs0", w.SortOf(anyT))
 		st.ghost["$pargs"] = SV{T: pv, Ty: SType{G: anyT}}
 		st.Assume(Ge(w.SliceLen(pv), IntLit(0)))
+		st.ghost["$ptext"] = SV{T: Var("ptext0", SString), Ty: SType{G: types.Typ[types.String]}}
 	}
 	if fr.Ctr != nil && len(fr.Ctr.CallbackParams) > 0 {
 		st.ghost["$ncalls"] = SV{T: Var("ncalls0", SInt), Ty: tInt}
